@@ -145,7 +145,7 @@ def compute_quadratic_approximation(
 
     return MDOQuadraticFunction(
         quad_coeffs=0.5 * hessian_approx,
-        linear_coeffs=gradient - hess_dot_vect,
+        linear_coeffs=gradient - 0.5 * (hess_dot_vect + hessian_approx.T @ x_vect),
         value_at_zero=(
             (0.5 * hess_dot_vect - gradient).T @ x_vect + function.evaluate(x_vect)
         ),
